@@ -1,7 +1,7 @@
 (* C14 — property theorems only.  Each is closed by [exact] of a lemma from
    Proofs.v; the driver pins the statements with [Check] and prints the
    assumptions on every run. *)
-From Yv Require Import Common.Base C14.Model C14.Spec C14.Run C14.Chain C14.Proofs C14.ProofsPipe C14.ProofsRun C14.ProofsChain C14.ProofsUtf8 C14.ChainSpur C14.ProofsChainSpur C14.Blocking C14.ProofsBlocking.
+From Yv Require Import Common.Base C14.Model C14.Spec C14.Run C14.Chain C14.Proofs C14.ProofsPipe C14.ProofsRun C14.ProofsChain C14.ProofsUtf8 C14.ChainSpur C14.ProofsChainSpur C14.Blocking C14.ProofsBlocking C14.Guard C14.ProofsGuard.
 From Yv Require Import Gen.Gen_Consts.
 
 (* received ++ pipe content ++ unsent = payload, in every reachable state, for
@@ -173,6 +173,50 @@ Theorem blocking_write_appends_in_order :
     /\ rrefs p' = rrefs p /\ wrefs p' = wrefs p.
 Proof. exact write_full_appends. Qed.
 
+(* O_NONBLOCK guard protocol of Concurrent::read/write (TemporaryNonBlockingGuard): for every
+   number of holders of one open file description and every order of entering and
+   leaving, once nobody is inside the flag is what it was before the first entered *)
+Theorem guard_restores_flag :
+  forall f0 ops s, grun (ginit f0) ops = Some s -> ginside s = [] -> gflag s = f0.
+Proof. exact guard_restores_lemma. Qed.
+
+(* what IS true while holders are inside: the flag is set as long as the holder that
+   found the description blocking (saved `false`) is inside *)
+Theorem guard_first_holder_keeps_nonblocking :
+  forall f0 ops s i, grun (ginit f0) ops = Some s -> In (i, false) (ginside s) -> gflag s = true.
+Proof. exact guard_first_holder_lemma. Qed.
+
+(* at most one holder inside is going to clear the flag *)
+Theorem guard_one_clearer :
+  forall f0 ops s, grun (ginit f0) ops = Some s -> length (filter (fun h => negb (snd h)) (ginside s)) <= 1.
+Proof. exact guard_one_clearer_lemma. Qed.
+
+(* a description that was O_NONBLOCK before stays so at every moment *)
+Theorem guard_keeps_nonblocking_description :
+  forall ops s, grun (ginit true) ops = Some s -> gflag s = true.
+Proof. exact guard_keeps_nonblocking_lemma. Qed.
+
+(* FALSE of the code as it is (witness: A enters, B enters, A leaves): 'the flag is set
+   while some holder is inside'.  B then runs its next read/write on a BLOCKING
+   description (finding F48 is the consequence on the simulator) *)
+Theorem guard_flag_while_inside_refuted :
+  exists f0 ops s, grun (ginit f0) ops = Some s /\ ginside s <> [] /\ gflag s = false.
+Proof. exact guard_flag_while_inside_refuted_lemma. Qed.
+
+(* the run-time oracle of stream H accepts the flags of every run of the model *)
+Theorem guard_oracle_sound :
+  forall f0 ops t, gtrace (ginit f0) ops = Some t -> guard_okb f0 0 (combine ops t) = true.
+Proof. exact guard_okb_sound_lemma. Qed.
+
+(* non-vacuity of guard_restores_flag / guard_first_holder_keeps_nonblocking:
+   three holders, the first leaves in the middle *)
+Example guard_run_example :
+  grun (ginit false) [GEnter 0; GEnter 1; GLeave 0; GEnter 2; GLeave 1]
+    = Some (mkG true [(2, false)]) /\
+  grun (ginit false) [GEnter 0; GEnter 1; GLeave 0; GEnter 2; GLeave 1; GLeave 2]
+    = Some (mkG false []).
+Proof. split; vm_compute; reflexivity. Qed.
+
 (* TIE BY TRANSLATION: the configuration the theorems are instantiated with is
    the one the source declares now (translator/consts.py reads PIPE_BUF and
    PIPE_SIZE out of yash-env/src/system/virtual/file_body.rs on every run), and
@@ -183,6 +227,12 @@ Theorem source_cfg_ok : cfg_ok (mkCfg gen_pipe_buf gen_pipe_size).
 Proof. rewrite <- cfg_repo_is_source. unfold cfg_ok, cfg_repo. cbn [pbuf psize]. split; apply Nat.leb_le; vm_compute; reflexivity. Qed.
 
 Print Assumptions pipe_conservation.
+Print Assumptions guard_restores_flag.
+Print Assumptions guard_first_holder_keeps_nonblocking.
+Print Assumptions guard_one_clearer.
+Print Assumptions guard_keeps_nonblocking_description.
+Print Assumptions guard_flag_while_inside_refuted.
+Print Assumptions guard_oracle_sound.
 Print Assumptions blocking_write_appends_in_order.
 Print Assumptions chain_spurious_conservation.
 Print Assumptions chain_spurious_complete_in_order.
